@@ -28,7 +28,8 @@ def _software(rng, h, db_ip, web_ip):
         if a == "database-client":
             e["options"] = {"db_server_ip": db_ip}
         elif a == "web-browser":
-            e["options"] = {"target_url": "http://%s/" % web_ip}
+            # the /users/ page makes the web server query the database (200 / 404 / 500), the root page is static
+            e["options"] = {"target_url": "http://%s/%s" % (web_ip, rng.choice(["", "users/", "users/"]))}
         elif a == "data-manipulation-bot":
             e["options"] = {"server_ip": db_ip, "port_scan_p_of_success": 1.0, "data_manipulation_p_of_success": 1.0,
                             "payload": "DELETE"}
@@ -133,6 +134,8 @@ def base(seed, force_off=False):
     db_ip = web_ip = srv["ip_address"]
     srv.setdefault("services", [])
     srv["services"] = [{"type": "database-service"}, {"type": "web-server"}]
+    if rng.random() < 0.6:       # the web server reaches the database through a client on its own host (absent: it answers 500)
+        srv["applications"] = [{"type": "database-client", "options": {"db_server_ip": db_ip}}]
     for h in hosts[:-1]:
         _software(rng, h, db_ip, web_ip)
     if len(hosts) > 2 and (rng.random() < 0.4 or force_off):
